@@ -704,6 +704,7 @@ type retInfo struct {
 	results []Val
 	st      *hstate
 	pos     token.Pos
+	blk     *ssa.BasicBlock
 }
 
 func (f *frame) assume(c string) {
